@@ -2,6 +2,7 @@ use crate::error::Error;
 use crate::error::Error::{InvalidStringIndex, InvalidSyntax};
 use crate::number::Number;
 use crate::vm::Vm;
+use crate::vm::builtin::char::fold_str;
 use crate::vm::builtin::{pop_argc, pop_char, pop_index, pop_string, pop_usize, pop_vector};
 use crate::vm::vcell::VCell;
 use std::ops::DerefMut;
@@ -68,7 +69,7 @@ pub fn string_upcase(vm: &mut Vm) -> Result<VCell, Error> {
 pub fn string_foldcase(vm: &mut Vm) -> Result<VCell, Error> {
     pop_argc(vm, 1, Some(1), "string-foldcase")?;
     let s = pop_string(vm, "string-foldcase")?;
-    let s = s.borrow().to_lowercase();
+    let s = fold_str(&s.borrow());
     Ok(VCell::string(s))
 }
 
@@ -300,31 +301,31 @@ pub fn string_gt_eq(vm: &mut Vm) -> Result<VCell, Error> {
 
 pub fn string_ci_eq(vm: &mut Vm) -> Result<VCell, Error> {
     string_comp(vm, "string-ci=?", |x, y| {
-        x.to_lowercase() == y.to_lowercase()
+        fold_str(x) == fold_str(y)
     })
 }
 
 pub fn string_ci_lt(vm: &mut Vm) -> Result<VCell, Error> {
     string_comp(vm, "string-ci<?", |x, y| {
-        x.to_lowercase() < y.to_lowercase()
+        fold_str(x) < fold_str(y)
     })
 }
 
 pub fn string_ci_gt(vm: &mut Vm) -> Result<VCell, Error> {
     string_comp(vm, "string-ci>?", |x, y| {
-        x.to_lowercase() > y.to_lowercase()
+        fold_str(x) > fold_str(y)
     })
 }
 
 pub fn string_ci_lt_eq(vm: &mut Vm) -> Result<VCell, Error> {
     string_comp(vm, "string-ci<=?", |x, y| {
-        x.to_lowercase() <= y.to_lowercase()
+        fold_str(x) <= fold_str(y)
     })
 }
 
 pub fn string_ci_gt_eq(vm: &mut Vm) -> Result<VCell, Error> {
     string_comp(vm, "string-ci>=?", |x, y| {
-        x.to_lowercase() >= y.to_lowercase()
+        fold_str(x) >= fold_str(y)
     })
 }
 
